@@ -181,6 +181,7 @@ func checkMain(args []string) int {
 	only := fs.String("only", "", "restrict to scenarios whose name contains this")
 	budget := fs.Int("budget", 0, "total wall seconds for exploration (default 60 quick / 600 thorough)")
 	instr := fs.String("instr-stats", "", "JSON file with instrumentation counts")
+	selfc := fs.String("selfcheck", "", "JSON file with the result of the instrumentation self-check")
 	fs.Parse(args)
 	t0 := time.Now()
 	seed := 0
@@ -411,6 +412,12 @@ func checkMain(args []string) int {
 			json.Unmarshal(b, &instrStats)
 		}
 	}
+	var selfCheck map[string]interface{}
+	if *selfc != "" {
+		if b, err := os.ReadFile(*selfc); err == nil {
+			json.Unmarshal(b, &selfCheck)
+		}
+	}
 	if len(samples) == 0 {
 		samples = append(samples, Sample{Scenario: scs[0].Name, Outcome: "(no sample)"})
 	}
@@ -431,6 +438,7 @@ func checkMain(args []string) int {
 		"vacuity_warnings":              warnings,
 		"instrumentation":               instrStats,
 		"workers":                       *workers,
+		"instrumentation_selfcheck":     selfCheck,
 	}
 	ev := map[string]interface{}{
 		"property_id": *prop,
